@@ -449,7 +449,7 @@ def main(tier):
         paths += r["paths"]
         obligations += r["obligations"]
         st = r.get("stats") or {}
-        for k in ("solver_sat", "solver_unsat", "solver_unknown", "forked_branches", "forced_branches"):
+        for k in runner.STAT_KEYS:
             agg[k] += st.get(k, 0)
         solver_s += st.get("solver_seconds", 0.0)
         if r["paths"] >= 2:
